@@ -16,7 +16,7 @@ from vf.common import CaseResult, Check, Scratch, rng_for
 from vf.fakes3 import FakeS3Store, S3Env
 from vf.interpose import GlobalPatch, Interposer, patch_datetime
 
-ALPHABET = ["append", "append", "append", "multi", "delete", "delete", "delete_append", "expire",
+ALPHABET = ["append", "append", "append", "multi", "delete", "delete", "delete", "delete_append", "readd", "readd", "expire",
             "delsnap", "delsnap", "fail_commit", "gc0", "gc", "age", "reopen", "retention",
             "open_tx", "commit_tx", "rollback_tx"]
 
@@ -37,10 +37,10 @@ class C09(Check):
         "lookup by id may legitimately show a repointed parent after expiry; parent is not compared",
     ]
     require = {"snapshot_rereads": 500, "timestamp_lookups": 500, "id_lookups": 200,
-               "delete_current_checked": 3, "writes_monitored": 100}
+               "delete_current_checked": 3, "writes_monitored": 100, "readds_of_referenced_file": 3}
 
     def gen_cases(self, tier: str, seed: int):
-        n = 64 if tier == "quick" else 800
+        n = 160 if tier == "quick" else 1600
         for i in range(n):
             yield {"i": i, "seed": seed, "backend": "s3" if i % 4 == 3 else "local",
                    "clock": "coarse" if i % 2 else "real"}
@@ -99,6 +99,8 @@ class C09(Check):
             out = h.apply(op)
             tv = h.observe(op, out["ok"])
             res.evals += 1
+            if op[0] == "readd" and out.get("readded"):
+                res.count("readds_of_referenced_file")
             wit = {"backend": case["backend"], "clock": case["clock"], "history": h.log[-18:],
                    "op": list(map(str, op)), "outcome": out}
             if overwrites:
